@@ -470,6 +470,82 @@ pub fn many_case(k: usize, mode: &str) -> Vec<Finding> {
     out
 }
 
+/// Names at the advertised limits (CHANNELLEN 1000, NICKLEN 200): a reply that lists them is
+/// split, never cut - the three views show whole names.
+pub fn long_names_case(chan_len: usize, nchans: usize, nick_len: usize) -> Vec<Finding> {
+    let mut out = vec![];
+    let mut w = World::new(Cfg::default().main_config(), 2);
+    macro_rules! m {
+        ($e:expr) => {
+            match $e {
+                Ok(v) => v,
+                Err(e) => return vec![finding("machinery", e.0)],
+            }
+        };
+    }
+    let nick: String = "n".repeat(nick_len.max(1));
+    m!(w.register(0, &nick, "nu"));
+    m!(w.register(1, "bob", "bu"));
+    let chans: Vec<String> = (0..nchans).map(|i| format!("#{}{}", (b'a' + i as u8) as char, "x".repeat(chan_len.saturating_sub(2)))).collect();
+    for c in &chans {
+        m!(w.send(0, &format!("JOIN {}", c)));
+    }
+    w.take_all();
+    let want: BTreeSet<String> = chans.iter().cloned().collect();
+    // WHOIS: every channel, whole
+    match whois_view(&mut w, 1, &nick) {
+        Ok(Some(cs)) => {
+            let got: BTreeSet<String> = cs.keys().cloned().collect();
+            if got != want {
+                out.push(finding("long:whois", format!("WHOIS lists channels of lengths {:?}, the user is on {} channels of length {}", got.iter().map(|c| c.len()).collect::<Vec<_>>(), nchans, chan_len)));
+            }
+        }
+        Ok(None) => out.push(finding("long:whois", "WHOIS does not report the user".into())),
+        Err(e) => return vec![finding("machinery", e.0)],
+    }
+    for c in &chans {
+        let names = m!(names_view(&mut w, 1, c));
+        let who = m!(who_view(&mut w, 1, c));
+        if !names.contains_key(&nick) || !who.contains_key(&nick) {
+            out.push(finding("long:names-who", format!("channel of length {}: NAMES shows nick lengths {:?}, WHO {:?}; the member's nick has length {}", c.len(), names.keys().map(|k| k.len()).collect::<Vec<_>>(), who.keys().map(|k| k.len()).collect::<Vec<_>>(), nick.len())));
+        }
+    }
+    // the announcement of a JOIN to a member carries the whole names too
+    w.take_all();
+    m!(w.send(1, &format!("JOIN {}", chans[0])));
+    let seen = w.take_lines(0);
+    if !seen.iter().filter_map(|l| parse_server_line(l)).any(|mm| mm.cmd == "JOIN" && mm.params.first() == Some(&chans[0])) {
+        out.push(finding("long:join", format!("the member of a channel of length {} did not see the newcomer's JOIN with the whole name: {:?}", chans[0].len(), seen.iter().map(|l| l.len()).collect::<Vec<_>>())));
+    }
+    for (i, c) in w.conns.iter().enumerate() {
+        if let Life::Panicked(msg) = &c.life {
+            out.push(finding("long:panic", format!("connection {} aborted: {}", i, msg)));
+        }
+    }
+    out
+}
+
+fn long_names_part(quick: bool) -> crate::run::PartResult {
+    let t0 = std::time::Instant::now();
+    let name = "fun:c04-long-names";
+    let mut r = crate::run::PartResult::new(name, "E-FUN");
+    let shapes: Vec<(usize, usize, usize)> = if quick { vec![(996, 2, 5), (996, 3, 200), (640, 4, 120), (300, 8, 200)] } else { vec![(100, 25, 9), (300, 8, 200), (500, 5, 200), (640, 4, 120), (996, 2, 5), (996, 3, 200), (1000, 1, 200), (1000, 4, 200)] };
+    for (cl, nc, nl) in shapes {
+        r.evaluations += 1;
+        for f in long_names_case(cl, nc, nl) {
+            r.violations.push(crate::bfs::Violation { scenario: name.into(), sig: f.sig, detail: f.detail, history: vec![], transcript: vec![serde_json::json!({"chan_len": cl, "chans": nc, "nick_len": nl}).to_string()] });
+        }
+    }
+    r.states = r.evaluations;
+    r.transitions = r.evaluations * 4;
+    r.distinct = r.evaluations;
+    r.traces = r.evaluations;
+    r.exhaustive = true;
+    r.samples = vec![serde_json::json!({"chan_len": 996, "chans": 3, "nick_len": 200})];
+    r.wall_s = t0.elapsed().as_secs_f64();
+    r
+}
+
 fn many_part(quick: bool) -> crate::run::PartResult {
     let t0 = std::time::Instant::now();
     let name = "fun:c04-many-announcements";
@@ -497,6 +573,9 @@ fn many_part(quick: bool) -> crate::run::PartResult {
 }
 
 pub fn replay_fun(scenario: &str, input: &serde_json::Value) -> Vec<Finding> {
+    if scenario == "fun:c04-long-names" {
+        return long_names_case(input["chan_len"].as_u64().unwrap_or(996) as usize, input["chans"].as_u64().unwrap_or(3) as usize, input["nick_len"].as_u64().unwrap_or(200) as usize);
+    }
     if scenario == "fun:c04-many-announcements" {
         return many_case(input["k"].as_u64().unwrap_or(9) as usize, input["mode"].as_str().unwrap_or("list"));
     }
@@ -506,6 +585,7 @@ pub fn replay_fun(scenario: &str, input: &serde_json::Value) -> Vec<Finding> {
 pub fn plan(quick: bool) -> Plan {
     let mut parts = vec![];
     parts.push(Part::Custom("fun:c04-many-announcements".into(), Box::new(move || many_part(quick))));
+    parts.push(Part::Custom("fun:c04-long-names".into(), Box::new(move || long_names_part(quick))));
     parts.push(Part::Bfs(Box::new(ghost(!quick)), lim(if quick { 6 } else { 8 }, 2_000_000, if quick { 20.0 } else { 600.0 })));
     parts.push(Part::Bfs(Box::new(secret(!quick)), lim(if quick { 4 } else { 6 }, 2_000_000, if quick { 20.0 } else { 600.0 })));
     parts.push(Part::Bfs(Box::new(quota()), lim(if quick { 4 } else { 6 }, 2_000_000, if quick { 20.0 } else { 600.0 })));
